@@ -9,6 +9,8 @@ import CGV.Model.Sample
 import CGV.Model.ReadCG
 import CGV.Model.Write
 import CGV.Model.Strip
+import CGV.Model.Coords
+import CGV.Model.Layout
 open Lean CGV CGV.J
 
 def openOf' (j : Json) : Except String OpenSt :=
@@ -89,6 +91,34 @@ def handle (j : Json) : Except String Json := do
   | "splitfrags" =>
     let t ← ofStr (← j.getObjVal? "s")
     pure (Json.mkObj [("ok", Json.arr ((splitFragments t).map fun (n, x) => Json.arr #[str n, str x]).toArray)])
+  | "writeback" =>
+    let nodes ← listOf natOf (← j.getObjVal? "nodes")
+    let pos ← listOf (listOf (fun x => x.getStr?)) (← j.getObjVal? "pos")
+    pure (Json.mkObj [("ok", Json.arr ((writeBack nodes pos).map fun (k, p) =>
+      Json.arr #[nat k, Json.arr (p.map Json.str).toArray]).toArray)])
+  | "beads" =>
+    let q := fun (x : Json) => pairOf intOf natOf x
+    let beads ← listOf (pairOf natOf (listOf (fun m => do
+      let a ← arr m
+      pure ((← q a[1]!, ← listOf q a[2]!) : Q × List Q)))) (← j.getObjVal? "beads")
+    pure (Json.mkObj [("ok", Json.arr (beads.map fun (k, ms) =>
+      Json.arr #[nat k, match bead ms with
+        | none => Json.null
+        | some comps => Json.arr (comps.map fun (n, d) =>
+            -- (Σ w p) / (Σ w) as one fraction
+            Json.arr #[int (n.1 * d.2), int (n.2 * d.1)]).toArray]).toArray)])
+  | "targetdist" =>
+    let ds ← listOf natOf (← j.getObjVal? "d")
+    pure (Json.mkObj [("ok", Json.arr (ds.map fun d => nat (targetDistF d).toBits.toNat).toArray)])
+  | "rescale" =>
+    let fl := fun (x : Json) => do let n ← x.getNum?; pure n.toFloat
+    let pos ← listOf (fun x => do
+      let a ← arr x
+      pure ((← natOf a[0]!, (← fl a[1]!, ← fl a[2]!)) : Nat × (Float × Float))) (← j.getObjVal? "pos")
+    let edges ← listOf (pairOf natOf natOf) (← j.getObjVal? "edges")
+    let b ← fl (← j.getObjVal? "b")
+    pure (Json.mkObj [("ok", Json.arr ((rescaleF pos edges b).map fun (k, p) =>
+      Json.arr #[nat k, nat p.1.toBits.toNat, nat p.2.toBits.toNat]).toArray)])
   | "write" =>
     let smiles ← boolOf (← j.getObjVal? "smiles")
     let nodes ← listOf (fun x => do
